@@ -272,7 +272,7 @@ def part_design(tier, fields):
             ("2 collectors x 1 snapshotter", dict(users=["u1"], kinds=["tcp"], collectors=["c1", "c2"], snappers=["s1"],
                                                   ops=["snap", "reset"], creds=["u1"], maxc=2, maxs=2, maxr=2)),
             ("1 collector x 2 snapshotters, per-user endpoint", dict(users=["u1"], kinds=["udpup"], collectors=["c1"], snappers=["s1", "s2"],
-                                                                      ops=["snap", "reset", "user"], creds=["u1"], maxc=2, maxs=2, maxr=2)),
+                                                                      ops=["snap", "reset", "user"], creds=["u1"], maxc=1, maxs=2, maxr=2)),
             ("users first seen mid-run", dict(users=["u1", "u2"], kinds=["udpup"], collectors=["c1", "c2"], snappers=["s1"],
                                               ops=["reset", "snap"], creds=["u1"], maxc=2, maxs=1, maxr=1)),
         ]
@@ -280,17 +280,17 @@ def part_design(tier, fields):
         cfgs = [
             ("2 collectors x 1 snapshotter, 3 sessions", dict(users=["u1"], kinds=["tcp"], collectors=["c1", "c2"], snappers=["s1"],
                                                               ops=["snap", "reset"], creds=["u1"], maxc=3, maxs=2, maxr=2)),
-            ("all session kinds, six figures", dict(users=["u1"], kinds=["tcp", "udpdown", "udpup"], collectors=["c1", "c2"], snappers=["s1"],
-                                                    ops=["snap", "reset"], creds=["u1"], maxc=2, maxs=1, maxr=1)),
-            ("1 collector x 2 snapshotters, per-user endpoint", dict(users=["u1"], kinds=["tcp"], collectors=["c1"], snappers=["s1", "s2"],
+            ("1 collector x 2 snapshotters, per-user endpoint", dict(users=["u1"], kinds=["udpup"], collectors=["c1"], snappers=["s1", "s2"],
                                                                       ops=["snap", "reset", "user"], creds=["u1"], maxc=2, maxs=3, maxr=2)),
             ("users first seen mid-run", dict(users=["u1", "u2"], kinds=["udpup"], collectors=["c1", "c2"], snappers=["s1"],
                                               ops=["reset", "snap", "user"], creds=["u1", "u2"], maxc=3, maxs=2, maxr=1)),
+            ("all session kinds, six figures", dict(users=["u1"], kinds=["tcp", "udpdown", "udpup"], collectors=["c1", "c2"], snappers=["s1"],
+                                                    ops=["snap", "reset"], creds=["u1"], maxc=2, maxs=2, maxr=1)),
         ]
 
     def one(item):
         name, kw = item
-        r = run_design(name, design_consts(fields, **kw), timeout=840 if big else 300, workers=8 if big else 4,
+        r = run_design(name, design_consts(fields, **kw), timeout=3000 if big else 1200, workers=8 if big else 4,
                        heap="12g" if big else "4g")
         return name, kw, r
 
@@ -300,7 +300,18 @@ def part_design(tier, fields):
     # ApiUserExact must fail
     d = design_consts(fields, users=["u1"], kinds=["udpup"], collectors=["p"], snappers=["p"], ops=["user"], creds=["u1"],
                       maxc=2, maxs=1, maxr=0, defect="TRUE")
-    st = run_design("selftest", d, timeout=300, workers=2, heap="2g")
+    st = run_design("selftest", d, timeout=1200, workers=2, heap="2g")
+    dead = None
+    if big:
+        # vacuity: no action of the spec is dead in an exhaustive configuration
+        kw = dict(users=["u1", "u2"], kinds=["udpup"], collectors=["c1", "c2"], snappers=["s1"], ops=["reset", "snap", "user"],
+                  creds=["u1"], maxc=2, maxs=1, maxr=1)
+        cv = run_design("coverage", design_consts(fields, **kw), timeout=2400, workers=4, heap="4g", extra=("-coverage", "1"))
+        counts = {m.group(1): int(m.group(2)) for m in re.finditer(r"^<(\w+) line \d+, col \d+ to line \d+, col \d+ of module Collector>: (\d+):\d+", cv.out, re.M)}
+        want = ["CallCollect", "UcLookup", "UcCreate", "AddField", "CallSnap", "SnapAnon", "SnapRLock", "SnapUserField", "SnapRUnlock", "Return"]
+        dead = [a for a in want if not counts.get(a)]
+        st.action_counts = counts
+    st.dead = dead
     return outs, st
 
 
@@ -326,16 +337,16 @@ def part_replay(tier, seed, fields, names, binary):
     small configuration plus simulated long histories of a larger one."""
     big = tier == "thorough"
     kw = dict(users=["u1", "u2"], kinds=["tcp", "udpdown", "udpup"], collectors=["p"], snappers=["p"],
-              ops=["snap", "reset", "user"], creds=["u1"], maxc=2 if not big else 3, maxs=2, maxr=1, nxt="NextApi",
+              ops=["snap", "reset", "user"], creds=["u1"], maxc=2 if not big else 3, maxs=1 if not big else 2, maxr=1, nxt="NextApi",
               emit="ACTION_CONSTRAINT Emit", view="GraphView")
     kw2 = dict(users=["u1", "u2", "u3"], kinds=["tcp", "udpdown", "udpup"], collectors=["p"], snappers=["p"],
                ops=["snap", "reset", "user"], creds=["u1", "u2"], maxc=8, maxs=6, maxr=3, nxt="NextApi",
                emit="ACTION_CONSTRAINT EmitLite", view="GraphView", amts="{<<1,2>>,<<3,1>>}")
     with ThreadPoolExecutor(max_workers=2) as ex:
         fg = ex.submit(vlib.tlc, SPEC, "MCCollector", "MCCollector.cfg", design_consts(fields, **kw), workers=4 if not big else 8,
-                       timeout=800, edges=True, keep_out=True, heap="6g")
-        fs = ex.submit(vlib.tlc, SPEC, "MCCollector", "MCCollector.cfg", design_consts(fields, **kw2), workers=1, timeout=800,
-                       edges=False, keep_out=True, simulate="num=%d" % (40 if not big else 600), depth=170, seed=seed, heap="2g")
+                       timeout=2400, edges=True, keep_out=True, heap="6g")
+        fs = ex.submit(vlib.tlc, SPEC, "MCCollector", "MCCollector.cfg", design_consts(fields, **kw2), workers=1, timeout=2400,
+                       edges=False, keep_out=True, simulate="num=%d" % (60 if not big else 400), depth=170, seed=seed, heap="2g")
         g, s = fg.result(), fs.result()
     if g.violation or re.search(r"is violated", g.out):
         raise vlib.Broken("the sequential configuration of Collector.tla violates an invariant:\n" + g.out[-3000:])
@@ -348,7 +359,7 @@ def part_replay(tier, seed, fields, names, binary):
     for behs, creds in ((behs1, kw["creds"]), (behs2, kw2["creds"])):
         inputs = [{"behaviours": c, "seed": seed + i, "params": {"names": names, "creds": creds, "scales": scales}}
                   for i, c in enumerate(common.chunks(behs, 8)) if c]
-        outs.append(common.run_parallel(binary, "TestReplay", inputs, 600))
+        outs.append(common.run_parallel(binary, "TestReplay", inputs, 1800))
     info = {"graph_distinct": g.distinct, "graph_generated": g.generated, "edges": len(graph.edges), "paths": len(paths),
             "uncovered_edges": left, "simulated_histories": len(behs2),
             "constants": {"graph": {k: kw[k] for k in ("users", "kinds", "ops", "creds", "maxc", "maxs", "maxr")},
@@ -360,7 +371,7 @@ def part_traces(tier, seed, fields, names, binary, work):
     """Concurrent real calls recorded and validated by TLC."""
     big = tier == "thorough"
     nproc = 4 if not big else 8
-    per = 24 if not big else 400
+    per = 16 if not big else 150
     G = 4
     inputs = []
     for i in range(nproc):
@@ -368,7 +379,7 @@ def part_traces(tier, seed, fields, names, binary, work):
         inputs.append({"seed": seed * 1000 + i, "params": {"names": names, "record": {
             "traces": per, "goroutines": G, "ops": 6 if i % 2 == 0 else 8, "users": ["alice", "bob"] if i % 2 == 0 else ["alice", "bob", "carol"],
             "creds": ["alice", "bob"], "userOps": 4, "maxAmount": 9, "out": out}}})
-    outs = common.run_parallel(binary, "TestRecord", inputs, 600)
+    outs = common.run_parallel(binary, "TestRecord", inputs, 1800)
     traces = []
     for inp in inputs:
         p = inp["params"]["record"]["out"]
@@ -390,9 +401,9 @@ def part_long(tier, seed, names, binary):
     reset loops; wave rounds: a new user name hit by every goroutine at once)."""
     big = tier == "thorough"
     inputs = [{"seed": seed * 100 + i, "params": {"names": names, "long": {
-        "rounds": 4 if not big else 24, "goroutines": 8 if i % 2 == 0 else 12, "waves": 24, "perWave": 2000 if not big else 4000,
+        "rounds": 4 if not big else 12, "goroutines": 8 if i % 2 == 0 else 12, "waves": 24, "perWave": 2000 if not big else 3000,
         "resetters": 2 + i % 2, "snappers": 1}}} for i in range(2 if not big else 4)]
-    return common.run_parallel(binary, "TestLongRun", inputs, 800)
+    return common.run_parallel(binary, "TestLongRun", inputs, 2400)
 
 
 def check_traces(tier, traces, procs, fields, work, tag="t"):
@@ -417,8 +428,21 @@ def check_traces(tier, traces, procs, fields, work, tag="t"):
             ss, _ = project(tr, fields, drop_user=True)
             has_user = {a for a, l, _ in subs if a.startswith(tr["t"] + "|") and any(x.get("op") == "user" for x in l)}
             batch += [(a + "#nouser", l) for a, l, _ in ss if a in has_user]
+    # binding self-test: a recorded history with one returned value corrupted (by more than all traffic of a trace) must
+    # be rejected, the original accepted
+    selftest = None
+    for a, l, nontrivial in subs:
+        idx = [i for i, x in enumerate(l) if x["e"] == "call" and x["op"] in ("snap", "reset")]
+        if nontrivial and idx:
+            bad = json.loads(json.dumps(l))
+            x = bad[idx[len(idx) // 2]]
+            tgt = x["anon"] if x["anon"] else x["users"]["u"]
+            tgt["f"] += 100000
+            selftest = a
+            batch.append(("selftest|corrupted", bad))
+            break
     # strict: whole traces against the full spec; a rejection alone is drift
-    plain = [tr for tr in traces if not tr.get("user")][: (8 if not big else 120)]
+    plain = [tr for tr in traces if not tr.get("user")][: (8 if not big else 60)]
     users3 = ["u1", "u2", "u3"]
     stsubs = []
     for tr in plain:
@@ -427,10 +451,12 @@ def check_traces(tier, traces, procs, fields, work, tag="t"):
             stsubs.append((tr["t"], l))
     strict_consts = dict(Users=tla_set(users3), Fields=tla_seq(fields), Prog="SessionProg")
     with ThreadPoolExecutor(max_workers=2) as ex:
-        f1 = ex.submit(validate, work, tag + "p", batch, procs, PROJ, 900, jobs, workers)
-        f3 = ex.submit(validate, work, tag + "s", stsubs, procs, strict_consts, 900, 1, 2 if not big else 6)
+        f1 = ex.submit(validate, work, tag + "p", batch, procs, PROJ, 2400, jobs, workers)
+        f3 = ex.submit(validate, work, tag + "s", stsubs, procs, strict_consts, 2400, 1, 2 if not big else 6)
         acc, d1, g1 = f1.result()
         acc3, d3, g3 = f3.result()
+    if selftest and "selftest|corrupted" in acc:
+        raise vlib.Broken("trace validation self-test: a history with a corrupted snapshot value (copy of %s) was accepted" % selftest)
     rejected = [s for s in subs if s[1] and s[0] not in acc]
     user_rej = 0
     for tid, lines, _ in rejected:
@@ -454,6 +480,7 @@ def check_traces(tier, traces, procs, fields, work, tag="t"):
                        % (len(drift), len(stsubs), drift[0]))
     return (pend, notes), {"traces": len(traces), "projections": len(subs), "projections_all_zero": ntriv, "projections_rejected": len(rejected),
             "rejected_only_for_user_endpoint": user_rej, "strict_traces": len(stsubs), "strict_drift": len(drift),
+            "selftest_corrupted_history_rejected": bool(selftest),
             "trace_states": d1 + d3, "trace_transitions": g1 + g3}
 
 
@@ -514,6 +541,10 @@ def run(tier, seed, replay):
     if selftest.violation != "ApiUserExact":
         raise vlib.Broken("vacuity self-test: with UserEndpointDefect = TRUE TLC should violate ApiUserExact, got %s" % selftest.violation)
     v.coverage["vacuity_selftest"] = "UserEndpointDefect=TRUE violates ApiUserExact after %d states" % selftest.distinct
+    if selftest.dead:
+        raise vlib.Broken("vacuity: actions %s of Collector.tla never fire in the coverage configuration" % selftest.dead)
+    if selftest.dead is not None:
+        v.coverage["action_coverage"] = selftest.action_counts
 
     # (2) sequential API replay
     nbeh = steps = 0
@@ -606,6 +637,21 @@ def run_replay(v, replay, seed, fields, names, binary, work):
         absorb(v, res, o, rc, "long run")
         v.coverage.update(states=1, transitions=1, traces_validated_against_impl=res["behaviours"])
         v.sample(rep)
+        return v.finish()
+    if "actions" not in rep:
+        # a crash or a finding of a long run without a plan of its own: run the concurrent drivers again
+        louts = part_long("quick", seed, names, binary)
+        n = 0
+        for res, o, rc in louts:
+            res = absorb(v, res, o, rc, "long concurrent runs")
+            n += res["behaviours"]
+        touts, traces, tpend, tinfo = part_traces("quick", seed, fields, names, binary, work)
+        for res, o, rc in touts:
+            absorb(v, res, o, rc, "recording concurrent calls")
+        add_trace_findings(v, tpend, doc["key"] == KEY_F13)
+        v.coverage.update(states=tinfo["trace_states"], transitions=tinfo["trace_transitions"],
+                          traces_validated_against_impl=n + tinfo["traces"], trace_validation=tinfo)
+        v.sample({"replayed": doc.get("key"), "text": doc.get("text")})
         return v.finish()
     acts = rep["actions"]
     beh = {"steps": [{"a": a} for a in acts]}
